@@ -219,10 +219,20 @@ def _finish(rep, c, vcs, probe, sh, known, t0):
         rep.add(c)
         return
     nvalid = 0
-    for vc in vcs:
+    for nvc, vc in enumerate(vcs):
         r = vc.decide()
         c.queries += 1
         c.solver_s += vc.time
+        if r == "valid" and rep.tier == "thorough" and nvc == 0:
+            cs = rep.extra.setdefault("cross_solver", {"agree": 0, "disagree": [], "inconclusive": 0, "checked": 0})
+            if cs["checked"] < 60:      # a sample of shapes: string VCs are slow on the older solver builds
+                cs["checked"] += 1
+                xc = vc.cross_check(timeout_s=20)
+                if "sat" in xc.values():
+                    cs["disagree"].append((sh.name, vc.name, xc))
+                    c.detail += " %s: z3 5.1 says valid but %r;" % (vc.name, xc)
+                    continue
+                cs["agree" if set(xc.values()) == {"unsat"} else "inconclusive"] += 1
         if r == "valid":
             nvalid += 1
             continue
